@@ -17,8 +17,9 @@ def configs(tier):
     cs = []
     def add(sp, script, param='', **kw):
         name = short(sp) + '-' + script + ('-' + param if param else '')
-        if script in ('refine', 'construct', 'construct1', 'mixed', 'sym'): kw.setdefault('strategy', 'tree'); kw.setdefault('solver_timeout_ms', 2000); kw.setdefault('max_paths', 6); kw.setdefault('time_budget_s', 40 if tier == 'quick' else 240)
-        cs.append(Config(name, 'C01', [sp, script] + ([param] if param else []), **kw))
+        if script in ('refine', 'construct', 'construct1', 'construct1r', 'mixed', 'sym'): kw.setdefault('strategy', 'tree'); kw.setdefault('solver_timeout_ms', 2000); kw.setdefault('max_paths', 6); kw.setdefault('time_budget_s', 40 if tier == 'quick' else 240)
+        tiny = kw.pop('tiny', 0)
+        cs.append(Config(name + ('-tiny' if tiny else ''), 'C01', [sp, script] + ([param] if param else []) + (['vs=1e-13'] if tiny else []), **kw))
     if tier == 'quick':
         add(spec('localp', 'localp', 2, 1, 3, order=1), 'load')
         add(spec('localp', 'localp', 3, 2, 2, order=2), 'load')
@@ -46,6 +47,8 @@ def configs(tier):
         add(spec('fourier', 'fourier', 2, 1, 1), 'construct', '3')
         add(spec('global', 'clenshaw-curtis', 2, 1, 1), 'sym', '3', max_paths=60); add(spec('sequence', 'rleja', 2, 1, 1), 'sym', '3', max_paths=60); add(spec('localp', 'localp', 2, 1, 1, order=1), 'sym', '3', max_paths=60)   # solver-chosen histories
         add(spec('fourier', 'fourier', 2, 1, 2, 'level', aniso=1), 'reupdate'); add(spec('global', 'clenshaw-curtis', 2, 1, 3, 'level', aniso=1), 'reupdate'); add(spec('sequence', 'rleja', 2, 1, 3, 'iptotal', aniso=1), 'reupdate')
+        # values of magnitude 1e-13 (tolerances scale with them): absolute thresholds hidden in the linear coefficient computations
+        add(spec('localp', 'localp', 3, 1, 2, order=2), 'load', tiny=1); add(spec('localp', 'localp', 2, 1, 2, order=1), 'construct1', tiny=1); add(spec('localp', 'localp', 2, 1, 2, order=1, limits=2), 'construct1r', tiny=1); add(spec('localp', 'semi-localp', 2, 1, 2, order=2, limits=2), 'construct1r'); add(spec('sequence', 'leja', 2, 1, 2, limits=2), 'construct1r');   # limits make the candidate set finite: the final grid is the full box, hence parent-complete add(spec('sequence', 'rleja', 2, 1, 3), 'load', tiny=1); add(spec('global', 'clenshaw-curtis', 2, 1, 2), 'load', tiny=1); add(spec('fourier', 'fourier', 2, 1, 1), 'load', tiny=1)
         add(spec('localp', 'localp', 2, 1, 1, order=1), 'mixed', '3'); add(spec('sequence', 'rleja', 2, 1, 1), 'mixed', '2'); add(spec('global', 'clenshaw-curtis', 2, 1, 1), 'mixed', '3')
     else:
         for rule in LOCAL_RULES:
